@@ -146,6 +146,7 @@ type c13Frame struct {
 	resumeB  *ssa.BasicBlock
 	resumeI  int
 	prev     *ssa.BasicBlock
+	phis     map[int]string // block index -> signature of the values its phis currently have
 }
 
 func (f *c13Frame) clone() *c13Frame {
@@ -161,6 +162,12 @@ func (f *c13Frame) clone() *c13Frame {
 	g.tuples = make(map[ssa.Value][]ssa.Value, len(f.tuples))
 	for k, v := range f.tuples {
 		g.tuples[k] = v
+	}
+	if f.phis != nil {
+		g.phis = make(map[int]string, len(f.phis))
+		for k, v := range f.phis {
+			g.phis[k] = v
+		}
 	}
 	g.defers = append([]*ssa.Defer(nil), f.defers...)
 	g.pending = append([]*ssa.Defer(nil), f.pending...)
@@ -249,6 +256,16 @@ func (p *c13Path) key(b *ssa.BasicBlock) string {
 		sb.WriteString(f.fn.String())
 		if f != p.top && f.resumeB != nil {
 			fmt.Fprintf(&sb, "@%d.%d", f.resumeB.Index, f.resumeI)
+		}
+		if len(f.phis) > 0 {
+			idxs := make([]int, 0, len(f.phis))
+			for i := range f.phis {
+				idxs = append(idxs, i)
+			}
+			sort.Ints(idxs)
+			for _, i := range idxs {
+				fmt.Fprintf(&sb, "~%d%s", i, f.phis[i])
+			}
 		}
 		sb.WriteByte('|')
 	}
@@ -432,7 +449,15 @@ func (e *C13Explorer) exec(p *c13Path, b *ssa.BasicBlock, i int) {
 					}
 				}
 			}
-			k := p.key(b) + phiSig
+			if phiSig != "" {
+				// the valuation of the frame's phis is part of the configuration: the
+				// blocks of a counted loop's body differ between iterations only by it
+				if f.phis == nil {
+					f.phis = map[int]string{}
+				}
+				f.phis[b.Index] = phiSig
+			}
+			k := p.key(b)
 			if p.seen[k] {
 				return
 			}
@@ -468,6 +493,10 @@ func (e *C13Explorer) exec(p *c13Path, b *ssa.BasicBlock, i int) {
 			var todo []bool
 			for _, br := range []bool{true, false} {
 				if !known || val == br {
+					// a select case on a nil channel never fires
+					if sel, k, ok := C13SelectFired(v, br); ok && isNilConst(c13StripConv(e.resolve(p, sel.States[k].Chan, 0))) {
+						continue
+					}
 					todo = append(todo, br)
 				}
 			}
@@ -550,12 +579,24 @@ func (e *C13Explorer) exec(p *c13Path, b *ssa.BasicBlock, i int) {
 			switch a := e.resolve(p, v.Addr, 0).(type) {
 			case *ssa.Alloc:
 				p.cells[a] = e.resolve(p, v.Val, 0)
+				for k := range p.fcells {
+					if k.base == a {
+						delete(p.fcells, k) // the whole value was replaced
+					}
+				}
 			case *ssa.FieldAddr:
 				if base, ok := e.resolve(p, a.X, 0).(*ssa.Alloc); ok {
 					if p.fcells == nil {
 						p.fcells = map[c13FieldCell]ssa.Value{}
 					}
 					p.fcells[c13FieldCell{base, a.Field}] = e.resolve(p, v.Val, 0)
+				}
+			case *ssa.IndexAddr:
+				if base, idx, ok := e.tableSlot(p, a); ok {
+					if p.fcells == nil {
+						p.fcells = map[c13FieldCell]ssa.Value{}
+					}
+					p.fcells[c13FieldCell{base, -1 - idx}] = e.resolve(p, v.Val, 0)
 				}
 			}
 			i++
@@ -608,18 +649,27 @@ func (e *C13Explorer) nextDefer(p *c13Path) (*ssa.BasicBlock, int) {
 // enter pushes a frame for the callee of c if its body can be followed.
 func (e *C13Explorer) enter(p *c13Path, c ssa.CallInstruction, viaDefer bool) *c13Frame {
 	cc := c.Common()
-	if cc.IsInvoke() {
-		// an interface call on a value whose concrete type is not tracked
-		if e.hooks.Unfollowed != nil && e.moduleIface(cc) {
-			e.hooks.Unfollowed(&C13Ctx{X: e, p: p}, c, p.st)
-		}
-		return nil
-	}
-	if _, ok := cc.Value.(*ssa.Builtin); ok {
-		return nil
-	}
-	target, binds := e.funcTarget(p, cc.Value)
+	var target *ssa.Function
+	var binds []ssa.Value
 	args := cc.Args
+	if cc.IsInvoke() {
+		// an interface call: followed when the dynamic value is known on the path
+		// or when the (module) interface has a single implementation
+		recv, m := e.invokeTarget(p, cc)
+		if m == nil {
+			if e.hooks.Unfollowed != nil && e.moduleIface(cc) {
+				e.hooks.Unfollowed(&C13Ctx{X: e, p: p}, c, p.st)
+			}
+			return nil
+		}
+		target = m
+		args = append([]ssa.Value{recv}, cc.Args...)
+	} else {
+		if _, ok := cc.Value.(*ssa.Builtin); ok {
+			return nil
+		}
+		target, binds = e.funcTarget(p, cc.Value)
+	}
 	once := false
 	if target != nil && funcIs(c13ObjOf(target), "sync", "Once", "Do") && len(cc.Args) == 2 {
 		// once.Do(f): f runs here (at most once over all calls)
@@ -828,6 +878,21 @@ func (e *C13Explorer) resolve(p *c13Path, v ssa.Value, depth int) ssa.Value {
 				return r
 			}
 		}
+		if b, ok := t.Call.Value.(*ssa.Builtin); ok && b.Name() == "len" && len(t.Call.Args) == 1 {
+			x := c13StripConv(e.resolve(p, t.Call.Args[0], depth+1))
+			if ld, isLd := x.(*ssa.UnOp); isLd && ld.Op == token.MUL {
+				if g, isG := ld.X.(*ssa.Global); isG {
+					if val := c13OnlyStore(e.P, "g:"+g.String()); val != nil {
+						x = c13StripConv(val)
+					}
+				}
+			}
+			if sl, ok := x.(*ssa.Slice); ok && sl.Low == nil && sl.High == nil {
+				if arr, ok := c13Deref(sl.X.Type()).Underlying().(*types.Array); ok {
+					return ssa.NewConst(constant.MakeInt64(arr.Len()), t.Type())
+				}
+			}
+		}
 		return v
 	case *ssa.Extract:
 		if f := e.frameOf(p, t.Parent()); f != nil {
@@ -837,6 +902,21 @@ func (e *C13Explorer) resolve(p *c13Path, v ssa.Value, depth int) ssa.Value {
 		}
 		return v
 	case *ssa.ChangeType:
+		return v
+	case *ssa.BinOp:
+		// integer arithmetic on constants (loop counters over literal tables)
+		a, ok1 := e.resolve(p, t.X, depth+1).(*ssa.Const)
+		b, ok2 := e.resolve(p, t.Y, depth+1).(*ssa.Const)
+		if ok1 && ok2 && a.Value != nil && b.Value != nil && a.Value.Kind() == constant.Int && b.Value.Kind() == constant.Int {
+			switch t.Op {
+			case token.ADD, token.SUB, token.MUL:
+				// small values only: a counted loop whose bound is not known must
+				// stop producing new configurations
+				if r := constant.BinaryOp(a.Value, t.Op, b.Value); constant.Compare(r, token.LEQ, constant.MakeInt64(64)) && constant.Compare(r, token.GEQ, constant.MakeInt64(-64)) {
+					return ssa.NewConst(r, t.Type())
+				}
+			}
+		}
 		return v
 	case *ssa.Field:
 		// a field of a struct value copied out of a local struct variable whose
@@ -860,11 +940,36 @@ func (e *C13Explorer) resolve(p *c13Path, v ssa.Value, depth int) ssa.Value {
 				}
 			}
 			addr := e.resolve(p, t.X, depth+1)
+			// a function value kept in a package-level variable or in a struct
+			// field that is assigned exactly once in the whole module (a method
+			// expression table, a handler installed by the constructor)
+			if c13IsFuncType(t.Type()) {
+				switch a := addr.(type) {
+				case *ssa.Global:
+					if val := c13OnlyStore(e.P, "g:"+a.String()); val != nil {
+						return e.resolve(p, val, depth+1)
+					}
+				case *ssa.FieldAddr:
+					if id := fieldIDOfAddr(a); id.Type != "" {
+						if _, isAlloc := e.resolve(p, a.X, depth+1).(*ssa.Alloc); !isAlloc {
+							if val := c13OnlyStore(e.P, "f:"+id.Type+"."+id.Field); val != nil {
+								return e.resolve(p, val, depth+1)
+							}
+						}
+					}
+				}
+			}
+			// an element of a literal table at a constant index
+			if ia, ok := addr.(*ssa.IndexAddr); ok {
+				if r := e.tableElem(p, ia, depth); r != nil {
+					return r
+				}
+			}
 			if cell, ok := addr.(*ssa.Alloc); ok {
 				if r, ok := p.cells[cell]; ok && r != nil {
 					return r
 				}
-				if p.allocd[cell] {
+				if p.allocd[cell] && !c13AddrEscapes(cell) {
 					// allocated on this path and not stored to yet: the zero value
 					if z := c13ZeroConst(c13Deref(cell.Type())); z != nil {
 						return z
@@ -881,7 +986,10 @@ func (e *C13Explorer) resolve(p *c13Path, v ssa.Value, depth int) ssa.Value {
 					if r, ok := p.fcells[c13FieldCell{base, fa.Field}]; ok && r != nil {
 						return r
 					}
-					if p.allocd[base] {
+					// zero value of a field: only when the struct was allocated on this
+					// path, never assigned as a whole (a by-value parameter or a copy) and
+					// its address is not handed to anything that could fill it in
+					if _, whole := p.cells[base]; p.allocd[base] && !whole && !c13AddrEscapes(base) {
 						if z := c13ZeroConst(t.Type()); z != nil {
 							return z
 						}
@@ -1056,6 +1164,14 @@ func (e *C13Explorer) evalBool(p *c13Path, v ssa.Value) (bool, bool) {
 			return !b, ok
 		}
 	case *ssa.BinOp:
+		if t.Op == token.LSS || t.Op == token.LEQ || t.Op == token.GTR || t.Op == token.GEQ {
+			a, ok1 := e.resolve(p, t.X, 0).(*ssa.Const)
+			b, ok2 := e.resolve(p, t.Y, 0).(*ssa.Const)
+			if ok1 && ok2 && a.Value != nil && b.Value != nil && a.Value.Kind() == constant.Int && b.Value.Kind() == constant.Int {
+				return constant.Compare(a.Value, t.Op, b.Value), true
+			}
+			return false, false
+		}
 		if t.Op != token.EQL && t.Op != token.NEQ {
 			return false, false
 		}
@@ -1155,7 +1271,26 @@ func c13StripNot(v ssa.Value, branch bool) (ssa.Value, bool) {
 			v, branch = u.X, !branch
 			continue
 		}
+		// b == true, b != false, b == false, true == b (switch b { case true: ... })
+		if bo, ok := v.(*ssa.BinOp); ok && (bo.Op == token.EQL || bo.Op == token.NEQ) {
+			for _, pr := range [][2]ssa.Value{{bo.X, bo.Y}, {bo.Y, bo.X}} {
+				k, isK := pr[1].(*ssa.Const)
+				if !isK || k.Value == nil || k.Value.Kind() != constant.Bool {
+					continue
+				}
+				if _, alsoK := pr[0].(*ssa.Const); alsoK {
+					continue
+				}
+				same := constant.BoolVal(k.Value) == (bo.Op == token.EQL)
+				v = pr[0]
+				if !same {
+					branch = !branch
+				}
+				goto again
+			}
+		}
 		return v, branch
+	again:
 	}
 }
 
@@ -1208,6 +1343,273 @@ func c13CellSingleStore(cell *ssa.Alloc) ssa.Value {
 	}
 	if n == 1 && !c13CellStoredElsewhere(cell) {
 		return only
+	}
+	return nil
+}
+
+var c13EscapeCache = map[*ssa.Alloc]bool{}
+
+// c13AddrEscapes: the address of the local (or of one of its fields) is used
+// other than for loads, stores, field selection and capture by a closure of
+// the same function, so something the explorer does not model may assign it.
+func c13AddrEscapes(a *ssa.Alloc) bool {
+	if r, ok := c13EscapeCache[a]; ok {
+		return r
+	}
+	var esc func(v ssa.Value, depth int) bool
+	esc = func(v ssa.Value, depth int) bool {
+		if depth > 3 {
+			return true
+		}
+		for _, r := range refs(v) {
+			switch u := r.(type) {
+			case *ssa.Store:
+				if u.Val == v {
+					return true // the address itself is stored somewhere
+				}
+			case *ssa.UnOp, *ssa.DebugRef:
+			case *ssa.FieldAddr:
+				if esc(u, depth+1) {
+					return true
+				}
+			case *ssa.IndexAddr:
+				if esc(u, depth+1) {
+					return true
+				}
+			case *ssa.MakeClosure:
+				// captured variable: stores inside the closure go through the explorer
+			default:
+				return true
+			}
+		}
+		return false
+	}
+	r := esc(a, 0)
+	c13EscapeCache[a] = r
+	return r
+}
+
+func c13IsFuncType(t types.Type) bool {
+	_, ok := t.Underlying().(*types.Signature)
+	return ok
+}
+
+var c13StoreIdx = map[*Prog]map[string][]ssa.Value{}
+
+// c13OnlyStore: the one value ever stored (anywhere in the module) into the
+// package-level variable / struct field named by key, or nil.
+func c13OnlyStore(p *Prog, key string) ssa.Value {
+	idx, ok := c13StoreIdx[p]
+	if !ok {
+		idx = map[string][]ssa.Value{}
+		for _, fn := range p.Funcs {
+			allInstrs(fn, func(in ssa.Instruction) {
+				st, ok := in.(*ssa.Store)
+				if !ok {
+					return
+				}
+				switch a := st.Addr.(type) {
+				case *ssa.Global:
+					idx["g:"+a.String()] = append(idx["g:"+a.String()], st.Val)
+				case *ssa.FieldAddr:
+					if id := fieldIDOfAddr(a); id.Type != "" && c13IsFuncType(c13Deref(a.Type())) {
+						k := "f:" + id.Type + "." + id.Field
+						idx[k] = append(idx[k], st.Val)
+					}
+				}
+			})
+		}
+		c13StoreIdx[p] = idx
+	}
+	if vs := idx[key]; len(vs) == 1 {
+		return vs[0]
+	}
+	return nil
+}
+
+// tableSlot: the array backing ia and the constant index, when both are known.
+func (e *C13Explorer) tableSlot(p *c13Path, ia *ssa.IndexAddr) (*ssa.Alloc, int, bool) {
+	k, ok := e.resolve(p, ia.Index, 0).(*ssa.Const)
+	if !ok || k.Value == nil || k.Value.Kind() != constant.Int {
+		return nil, 0, false
+	}
+	base := c13StripConv(e.resolve(p, ia.X, 0))
+	if sl, ok := base.(*ssa.Slice); ok && sl.Low == nil && sl.High == nil {
+		base = e.resolve(p, sl.X, 0)
+	}
+	a, ok := base.(*ssa.Alloc)
+	if !ok {
+		return nil, 0, false
+	}
+	return a, int(k.Int64()), true
+}
+
+// tableElem: the value of element ia of a literal table (array / slice
+// literal whose elements are assigned at constant indices).
+func (e *C13Explorer) tableElem(p *c13Path, ia *ssa.IndexAddr, depth int) ssa.Value {
+	base, idx, ok := e.tableSlot(p, ia)
+	if !ok {
+		// a package-level array / slice variable initialised by a literal
+		k, isK := e.resolve(p, ia.Index, 0).(*ssa.Const)
+		if !isK || k.Value == nil || k.Value.Kind() != constant.Int {
+			return nil
+		}
+		x := c13StripConv(e.resolve(p, ia.X, 0))
+		if ld, isLd := x.(*ssa.UnOp); isLd && ld.Op == token.MUL {
+			if g, isG := ld.X.(*ssa.Global); isG {
+				if val := c13OnlyStore(e.P, "g:"+g.String()); val != nil {
+					x = c13StripConv(val)
+				}
+			}
+		}
+		if sl, isSl := x.(*ssa.Slice); isSl && sl.Low == nil && sl.High == nil {
+			x = sl.X
+		}
+		switch b := x.(type) {
+		case *ssa.Alloc:
+			base, idx = b, int(k.Int64())
+		case *ssa.Global:
+			return c13StaticElem(b, int(k.Int64()))
+		default:
+			return nil
+		}
+	}
+	if r, ok := p.fcells[c13FieldCell{base, -1 - idx}]; ok && r != nil {
+		return r
+	}
+	if !p.allocd[base] {
+		if r := c13StaticElem(base, idx); r != nil {
+			return e.resolve(p, r, depth+1)
+		}
+	}
+	return nil
+}
+
+// c13StaticElem: the single value stored at constant index idx of the array base.
+func c13StaticElem(base ssa.Value, idx int) ssa.Value {
+	var only ssa.Value
+	n := 0
+	for _, r := range refs(base) {
+		ia, ok := r.(*ssa.IndexAddr)
+		if !ok {
+			continue
+		}
+		k, ok := ia.Index.(*ssa.Const)
+		if !ok || k.Value == nil || int(k.Int64()) != idx {
+			continue
+		}
+		for _, rr := range refs(ia) {
+			if st, ok := rr.(*ssa.Store); ok && st.Addr == ssa.Value(ia) {
+				n++
+				only = st.Val
+			}
+		}
+	}
+	if n == 1 {
+		return only
+	}
+	return nil
+}
+
+// invokeTarget resolves an interface method call to the method of the
+// concrete value known on the path, or of the single implementation of a
+// module interface.
+func (e *C13Explorer) invokeTarget(p *c13Path, cc *ssa.CallCommon) (ssa.Value, *ssa.Function) {
+	if cc.Method == nil {
+		return nil, nil
+	}
+	v := e.resolve(p, cc.Value, 0)
+	for i := 0; i < 4; i++ {
+		switch t := v.(type) {
+		case *ssa.MakeInterface:
+			recv := e.resolve(p, t.X, 0)
+			if fn := e.P.SSA.LookupMethod(t.X.Type(), cc.Method.Pkg(), cc.Method.Name()); fn != nil && len(origin(fn).Blocks) > 0 {
+				return recv, origin(fn)
+			}
+			return nil, nil
+		case *ssa.ChangeInterface:
+			v = e.resolve(p, t.X, 0)
+			continue
+		case *ssa.UnOp:
+			// an interface-typed field assigned once
+			if t.Op == token.MUL {
+				if fa, ok := e.resolve(p, t.X, 0).(*ssa.FieldAddr); ok {
+					if val := c13OnlyIfaceStore(e.P, fieldIDOfAddr(fa)); val != nil {
+						v = val
+						continue
+					}
+				}
+			}
+		}
+		break
+	}
+	if !e.moduleIface(cc) {
+		return nil, nil
+	}
+	// single implementation of an unexported module interface
+	iface, _ := cc.Value.Type().Underlying().(*types.Interface)
+	if iface == nil {
+		return nil, nil
+	}
+	var impl types.Type
+	n := 0
+	for _, pkg := range e.P.Pkgs {
+		if pkg.Types != cc.Method.Pkg() {
+			continue
+		}
+		sc := pkg.Types.Scope()
+		for _, name := range sc.Names() {
+			tn, ok := sc.Lookup(name).(*types.TypeName)
+			if !ok || tn.IsAlias() {
+				continue
+			}
+			if _, isIface := tn.Type().Underlying().(*types.Interface); isIface {
+				continue
+			}
+			if named, ok := tn.Type().(*types.Named); ok && named.TypeParams().Len() > 0 {
+				continue
+			}
+			for _, cand := range []types.Type{tn.Type(), types.NewPointer(tn.Type())} {
+				if types.Implements(cand, iface) {
+					impl = cand
+					n++
+					break
+				}
+			}
+		}
+	}
+	if n != 1 {
+		return nil, nil
+	}
+	if fn := e.P.SSA.LookupMethod(impl, cc.Method.Pkg(), cc.Method.Name()); fn != nil && len(origin(fn).Blocks) > 0 {
+		return v, origin(fn)
+	}
+	return nil, nil
+}
+
+var c13IfaceStoreIdx = map[*Prog]map[FieldID][]ssa.Value{}
+
+// c13OnlyIfaceStore: the single value ever stored into an interface-typed struct field.
+func c13OnlyIfaceStore(p *Prog, id FieldID) ssa.Value {
+	idx, ok := c13IfaceStoreIdx[p]
+	if !ok {
+		idx = map[FieldID][]ssa.Value{}
+		for _, fn := range p.Funcs {
+			allInstrs(fn, func(in ssa.Instruction) {
+				if st, ok := in.(*ssa.Store); ok {
+					if fa, ok := st.Addr.(*ssa.FieldAddr); ok {
+						if _, isI := c13Deref(fa.Type()).Underlying().(*types.Interface); isI {
+							f := fieldIDOfAddr(fa)
+							idx[f] = append(idx[f], st.Val)
+						}
+					}
+				}
+			})
+		}
+		c13IfaceStoreIdx[p] = idx
+	}
+	if vs := idx[id]; len(vs) == 1 && id.Type != "" {
+		return vs[0]
 	}
 	return nil
 }
